@@ -417,7 +417,7 @@ pub fn run(o: &Opts) -> i32 {
         }
     };
     let sz = sizes(&o.tier);
-    let cases = build(&CorpusSpec { seed: o.seed, generated: sz.generated, mutated: sz.mutated }, &o.repo, &o.verif);
+    let cases = build(&CorpusSpec { seed: o.seed, generated: sz.generated, mutated: sz.mutated, layout: sz.layout }, &o.repo, &o.verif);
     let runs: u64 = if o.tier == "thorough" { 12_000 } else { 480 };
     let mut rep = Report::new(&o.out, "A", o.shard);
     let mut stats = ExecStats::default();
